@@ -1951,16 +1951,28 @@ insert_list:
         }
         if (!q.th || !cnt || !m_ooo_resume)
             return;
-        SCOPED_LOCK(q.lock);
-        for (auto th = q.th->next();
-                  th!= q.th && cnt;
-                  th = th->next()) {
-            SCOPED_LOCK(th->lock);
-            auto& c = th->semaphore_count;
-            if (c <= cnt) {
-                cnt -= c;
-                prelocked_thread_interrupt(th, -1);
+        // out-of-order resume: serve waiters behind the head whose demand is covered.
+        // prelocked_thread_interrupt() dequeues the waiter, which takes q.lock itself and
+        // unlinks the node we are standing on, so pick one waiter under q.lock, release
+        // q.lock, wake it, and scan again.
+        while (cnt) {
+            thread* th = nullptr;
+            {
+                SCOPED_LOCK(q.lock);
+                if (!q.th) return;
+                for (auto t = q.th->next(); t != q.th; t = t->next()) {
+                    // try_lock: whoever holds t->lock (a timeout or an interrupt) is about to
+                    // dequeue t and needs q.lock for that
+                    if (t->semaphore_count <= cnt && t->lock.try_lock() == 0) {
+                        th = t;
+                        break;
+                    }
+                }
             }
+            if (!th) return;
+            cnt -= th->semaphore_count;
+            prelocked_thread_interrupt(th, -1);
+            th->lock.unlock();
         }
     }
     inline bool semaphore::try_subtract(uint64_t count) {
